@@ -1,6 +1,8 @@
 """C11 - parent links are right and removed objects are fully detached.
 
-Correspondence with M-Parents (lean/DefconModel/Parents.lean) + direct oracle.
+Correspondence with M-Cross (lean/DefconModel/Cross.lean = M-Parents, lean/DefconModel/Parents.lean, composed with
+the cross links of the notification wiring; the model's dump shows the STORED wiring `Cross.OState`, changed at the
+events at which component.py changes its registrations) + direct oracle.
 
 The implementation adaptor drives the REAL defcon objects (Font, LayerSet, Layer, Glyph, Contour,
 Component, Anchor, Guideline, Image, Lib) in process.  A case is a history of operations on a small
@@ -12,8 +14,9 @@ allocates the same numbers.
 
 `dump` reads, for EVERY object ever seen (live and removed), all parent accessors
 (glyph / layer / layerSet / font / getParent() / dispatcher), the child lists, the dirty flags of the
-containers and - read-only - the parent<-child and self registrations in every font's notification
-centre.  `mutate` changes an attribute of an object through its public API while a recorder that
+containers and - read-only - EVERY registration in every font's notification centre (observer, notification,
+observable): parent<-child and self registrations, the cross links (component -> layer / base glyph, image ->
+image set / layer) and the font's fixed sub-objects.  `mutate` changes an attribute of an object through its public API while a recorder that
 observes every notification of every font listens.
 
 The direct ORACLE does not know the model: it takes snapshots of the implementation's own child lists
@@ -26,7 +29,7 @@ import weakref
 
 from sexp import Atom, opt
 
-MODEL = "parents"
+MODEL = "cross"
 SHRINKABLE = True
 RULE = ("histories over one or two fonts (new, or opened from a UFO 3 written for the case so that glyphs load lazily), "
         "their layers and glyphs, stand-alone Glyph() objects and every object ever created (removed ones are kept "
@@ -36,18 +39,29 @@ RULE = ("histories over one or two fonts (new, or opened from a UFO 3 written fo
         "live or removed object, clearing dirty flags, full accessor dumps; half of the cases start with a scripted "
         "scenario (ghost after remove, replaced glyph, rename onto a name, layer deletion, owned twice, operations on a "
         "deleted glyph, lazy loading, list assignment, rename away and back, two fonts), with and without a read of the "
-        "accessors before the critical step; non-trivial = something was removed/replaced AND a mutate AND an "
-        "insertion; distinct = distinct op lists")
+        "accessors before the critical step; two cases in five run on fonts built in memory with components that name "
+        "base glyphs (Component() with a base glyph name, component.baseGlyph =, decomposeComponent, changes of a base "
+        "glyph and of its contours; scripted: base glyph replaced / deleted / renamed away and back / another glyph "
+        "renamed onto its name, a layer with base glyph, referencing glyph and image deleted in both creation orders, "
+        "every way a component leaves its glyph followed by a change of its former base glyph); every dump compares "
+        "the COMPLETE registry of every font's notification centre; non-trivial = something was removed/replaced AND a "
+        "mutate AND an insertion; distinct = distinct op lists")
 ASSUMPTIONS = [
     "no operation addresses a layer by name (newGlyph, getGlyph, delete, insertGlyph) after the layer was deleted from "
     "its font, and the default layer is never deleted: a layer without a font does not keep its own bookkeeping "
     "(renaming one of its glyphs leaves the old key) - both sides answer `Detached`",
     "layers are not renamed onto an existing layer name (LayerSet._layerNameChange would duplicate the name in the "
     "layer order: outside every property's domain)",
-    "component graph acyclic; components with a base glyph only in the cross-link cases, which run on fonts built in "
-    "memory and do not compare the notification log (a base glyph's change legitimately makes referencing glyphs post)",
-    "the font lib and the contours of a loaded glyph are built eagerly by the adaptor (font.lib / len(glyph) right "
-    "after creation/loading): defcon builds them on first access, their number would otherwise depend on it",
+    "component graph acyclic (a component may only name a base glyph of lower rank than its glyph's name: A < B < "
+    "everything else); components with a base glyph other than `missing` only in the cross-link cases, which run on "
+    "fonts built in memory (attaching a component whose base glyph is only on disk loads that glyph)",
+    "components are appended (insertComponent at the end): Layer.insertGlyph copies them in list order, which the model "
+    "knows as insertion order",
+    "decomposeComponent only for a component the glyph lists, of a glyph that has a layer (both sides answer "
+    "ValueError / `Detached` otherwise)",
+    "the font lib, the font info and the contours of a loaded glyph are built eagerly by the adaptor (font.lib / "
+    "font.info / len(glyph) right after creation/loading): defcon builds them on first access, their number and the "
+    "info's registrations would otherwise depend on it",
     "python asserts enabled (no -O): they are defcon's rejection mechanism",
     "a list assignment (glyph.anchors = ...) is only issued with objects it will accept: a rejected one leaves the "
     "glyph's notifications held (hold/release bracket without try/finally), which is C02/C08's subject",
@@ -56,8 +70,10 @@ ASSUMPTIONS = [
 TRUSTED = [
     "objects are named by creation order; the adaptor's discovery order of objects built by one operation (loading, "
     "Layer.insertGlyph) is mirrored by the model's allocation order",
-    "registrations are read off NotificationCenter._registry (read-only) and restricted to parent<-child and self "
-    "registrations; cross links (component -> base glyph/layer, image -> image set/layer) are not modelled",
+    "registrations are read off NotificationCenter._registry (read-only): EVERY (observer, notification, observable) of "
+    "every font's centre except the adaptor's own recorder; objects are canonicalised to their number, the font's image "
+    "set / data set / info to `(imageSet f)` / `(dataSet f)` / `(info f)`, anything else to `(unknown Class)` (which the "
+    "model never produces)",
     "the adaptor keeps every object alive for the whole case (BaseObject.__del__ unregisters observers)",
 ]
 
@@ -66,7 +82,16 @@ CHILD_KINDS = ["contour", "component", "anchor", "guideline"]
 LEAF_KINDS = CHILD_KINDS + ["image", "lib"]
 CONTAINER_KINDS = ["font", "layerSet", "layer", "glyph"]
 GLYPH_NAMES = ["A", "B", "C", "D"]
-BASES = ["A", "B"]          # the only glyph names components reference (cross-link cases); hosts are the others
+BASES = ["A", "B"]          # the only glyph names components reference (cross-link cases)
+
+
+def rank(name):
+    """the component graph stays acyclic: a component may only name a base glyph of lower rank than its host's name"""
+    return {"A": 0, "B": 1}.get(name, 2)
+
+
+def brank(base):
+    return -1 if base in (None, "missing") else rank(base)
 LAYER_NAMES = ["back", "sketch", "L3"]
 NOSUCH = [Atom("err"), Atom("NoSuchObject")]
 DETACHED = [Atom("err"), Atom("Detached")]
@@ -343,7 +368,38 @@ class Shadow(object):
                 self.kids[p].append(x)
                 self.owner[x] = p
             return True
+        if k == "setBase":
+            self.base[op[1]] = op[2]
+            return True
+        if k == "decompose":
+            g, c = op[1], op[2]
+            if c not in self.kids[g] or self.owner[g] is None:
+                return False
+            for _ in range(self.flat(self.owner[g], self.base.get(c))):
+                self.attach(g, self.alloc("contour"))
+            self.kids[g].remove(c)
+            if self.owner[c] == g:
+                self.owner[c] = None
+            return True
         return True
+
+    def flat(self, layer, base, fuel=6):
+        """contours a decomposition of a component with this base glyph name draws"""
+        if base is None or fuel == 0:
+            return 0
+        g = self.find_glyph(layer, base)
+        if g is None:
+            return 0
+        n = len([x for x in self.kids[g] if self.kind[x] == "contour"])
+        for x in self.kids[g]:
+            if self.kind[x] == "component":
+                n += self.flat(layer, self.base.get(x), fuel - 1)
+        return n
+
+    def in_font(self, g):
+        """glyph g is filed in a layer that belongs to a font"""
+        la = self.owner.get(g)
+        return la is not None and la not in self.dead and self.kind.get(la) == "layer"
 
 
 # ---------------------------------------------------------------------------------------
@@ -378,9 +434,17 @@ class Gen(object):
         self.sh.apply(op)
         self.ops.append(op)
         if dump is None:
-            dump = self.rng.random() < 0.8
+            # the cross-link cases compare the complete registry after EVERY operation of the random part
+            dump = self.rng.random() < (1.0 if self.xlink else 0.8)
         if dump and op[0] != "dump":
             self.ops.append(["dump"])
+
+    def host_ok(self, g, base):
+        return brank(base) < rank(self.sh.name.get(g, ""))
+
+    def name_ok(self, g, name):
+        sh = self.sh
+        return all(brank(sh.base.get(x)) < rank(name) for x in sh.kids[g] if sh.kind[x] == "component")
 
     # -- pickers ---------------------------------------------------------------------
     def glyphs(self, live=None):
@@ -431,8 +495,40 @@ class Gen(object):
         self.counter += 1
         self.emit(["mutate", x, self.counter], dump)
 
+    def cross_op(self):
+        """operations on the cross links: baseGlyph =, decomposeComponent, a change of a glyph that components name"""
+        rng, sh = self.rng, self.sh
+        comps = [x for x in sorted(sh.kind) if sh.kind[x] == "component"]
+        r = rng.random()
+        if r < 0.45 and comps:
+            c = rng.choice(comps)
+            g = sh.owner[c]
+            cands = (BASES + ["missing", None]) if self.xlink else ["missing", None]
+            if g is not None:
+                cands = [b for b in cands if self.host_ok(g, b)]
+            self.emit(["setBase", c, rng.choice(cands)])
+            return True
+        if r < 0.7:
+            listed = [(g, c) for g in self.glyphs() for c in sh.kids[g] if sh.kind[c] == "component" and sh.in_font(g)]
+            if listed:
+                g, c = rng.choice(listed)
+                self.emit(["decompose", g, c])
+                return True
+        based = [c for c in comps if sh.base.get(c) not in (None, "missing") and sh.owner[c] is not None
+                 and sh.in_font(sh.owner[c])]
+        if based:
+            c = rng.choice(based)
+            o = sh.find_glyph(sh.owner[sh.owner[c]], sh.base[c])
+            if o is not None:
+                kids = [x for x in sh.kids[o] if sh.kind[x] in ("contour", "component") and sh.owner[x] == o]
+                self.mutate(rng.choice(kids) if kids and rng.random() < 0.7 else o)
+                return True
+        return False
+
     def random_op(self):
         rng, sh = self.rng, self.sh
+        if rng.random() < (0.15 if self.xlink else 0.03) and self.cross_op():
+            return
         r = rng.random()
         layers = sh.live_layers()
         glyphs = self.glyphs()
@@ -452,17 +548,15 @@ class Gen(object):
         elif r < 0.29 and glyphs:
             g = rng.choice(glyphs)
             name = rng.choice(GLYPH_NAMES + ["E", "F"])
-            if self.xlink and (name in BASES or sh.name[g] in BASES or (
-                    sh.owner[g] is not None and sh.find_glyph(sh.owner[g], name) not in (None, g))):
-                # component cross links: base glyphs keep their names, nothing is renamed onto an existing glyph
-                name = "Z%d" % len(self.ops)
+            if self.xlink and not self.name_ok(g, name):
+                name = "Z%d" % len(self.ops)      # the component graph stays acyclic
             self.emit(["renameGlyph", g, name])
         elif r < 0.35 and layers and glyphs:
             la = rng.choice(layers)
             g = rng.choice(glyphs)
             name = rng.choice([None, None] + GLYPH_NAMES)
             tgt = name if name is not None else sh.name[g]
-            if sh.find_glyph(la, tgt) == g or tgt == "" or (self.xlink and tgt in BASES and sh.has_based_component(g)):
+            if sh.find_glyph(la, tgt) == g or tgt == "" or (self.xlink and not self.name_ok(g, tgt)):
                 # inserting a glyph over itself / without a name is not our subject; the component graph stays acyclic
                 name = "Y%d" % len(self.ops)
             self.emit(["insertGlyph", la, g, name])
@@ -500,8 +594,8 @@ class Gen(object):
             else:
                 x = self.new_child()
             conts = list(glyphs)
-            if sh.kind[x] == "component" and sh.base.get(x) is not None:
-                conts = [g for g in conts if sh.name[g] not in BASES]      # acyclic component graph
+            if sh.kind[x] == "component":
+                conts = [g for g in conts if self.host_ok(g, sh.base.get(x))]      # acyclic component graph
             if sh.kind[x] == "guideline":
                 conts += fonts * 2
             if conts:
@@ -807,6 +901,170 @@ def sc_two_fonts(g):
     g.emit(["insertGlyph", sh.layer_of_font(f2)[0], a, "Z"], dump=True)
 
 
+def _based_host(g, la, host, base):
+    """a glyph `host` in layer la with a component that names `base`; returns (glyph, component)"""
+    h = g.sh.find_glyph(la, host)
+    if h is None:
+        h = _new_glyph(g, la, host)
+    c = g.sh.next
+    g.emit(["new", "component", base], dump=False)
+    g.emit(["insert", h, c, 0], dump=False)
+    return h, c
+
+
+def _contour_in(g, glyph):
+    x = g.new_child("contour")
+    g.emit(["insert", glyph, x, 0], dump=False)
+    return x
+
+
+def sc_x_replace_base(g):
+    """the glyph object a component observes is replaced (newGlyph / insertGlyph / rename over its name) or deleted"""
+    sh, rng = g.sh, g.rng
+    la = rng.choice(sh.live_layers())
+    a = sh.find_glyph(la, "A")
+    if a is None:
+        a = _new_glyph(g, la, "A")
+    k = _contour_in(g, a)
+    h, c = _based_host(g, la, rng.choice(["C", "D"]), "A")
+    if rng.random() < 0.4:
+        h2, c2 = _based_host(g, la, "B", "A")
+    _maybe_dump(g)
+    how = rng.random()
+    if how < 0.3:
+        g.emit(["newGlyph", la, "A"], dump=True)
+    elif how < 0.5:
+        src = _new_glyph(g, la, "S")
+        _contour_in(g, src)
+        g.emit(["insertGlyph", la, src, "A"], dump=True)
+    elif how < 0.75:
+        other = _new_glyph(g, la, "N")
+        g.emit(["renameGlyph", other, "A"], dump=True)
+    else:
+        g.emit(["delGlyph", la, "A"], dump=True)
+    g.emit(["clean"], dump=False)
+    g.mutate(k, dump=False)         # a contour of the replaced glyph: nobody may hear it
+    g.mutate(a, dump=True)
+    now = sh.find_glyph(la, "A")
+    if now is not None:
+        k2 = _contour_in(g, now)
+        g.emit(["clean"], dump=False)
+        g.mutate(k2, dump=True)     # ... while the new one is followed
+    g.emit(["remove", h, c], dump=True)
+    g.emit(["clean"], dump=False)
+    if now is not None:
+        g.mutate(k2, dump=True)     # the removed component's former glyph must not hear its former base glyph
+
+
+def sc_x_layer_deletion(g):
+    """a layer with a base glyph, a glyph whose component names it (created before or after it) and an image is deleted"""
+    sh, rng = g.sh, g.rng
+    f = sh.fonts()[0]
+    used = [sh.name[x] for x in sh.layer_of_font(f)]
+    free = [n for n in LAYER_NAMES if n not in used]
+    if not free:
+        return
+    la = sh.next
+    g.emit(["newLayer", f, free[0]], dump=False)
+    if rng.random() < 0.6:
+        a = _new_glyph(g, la, "A")
+        h, c = _based_host(g, la, "C", "A")
+    else:
+        h, c = _based_host(g, la, "C", "A")
+        a = _new_glyph(g, la, "A")
+    k = _contour_in(g, a)
+    if rng.random() < 0.6:
+        g.emit(["touch", h, "image"], dump=False)
+    if rng.random() < 0.5:
+        _based_host(g, la, "D", "missing")
+    _maybe_dump(g)
+    g.emit(["delLayer", f, sh.name[la]], dump=True)
+    g.emit(["clean"], dump=False)
+    for x in [k, a, c, h, la]:
+        g.mutate(x, dump=False)
+    g.emit(["dump"])
+    d = sh.layer_of_font(f)[0]
+    g.emit(["insertGlyph", d, h, "Q"], dump=True)       # the copy's component follows the default layer's "A"
+    if rng.random() < 0.5:
+        g.emit(["newGlyph", d, "A"], dump=True)
+
+
+def sc_x_remove_component(g):
+    """every way a component leaves its glyph; afterwards a change of its former base glyph reaches nobody through it"""
+    sh, rng = g.sh, g.rng
+    la = rng.choice(sh.live_layers())
+    a = sh.find_glyph(la, "A")
+    if a is None:
+        a = _new_glyph(g, la, "A")
+    k = _contour_in(g, a)
+    h, c = _based_host(g, la, "C", "A")
+    if rng.random() < 0.5:
+        g.emit(["touch", h, "image"], dump=False)
+    _maybe_dump(g)
+    g.emit(["clean"], dump=False)
+    g.mutate(k, dump=True)          # followed: C posts
+    how = rng.random()
+    if how < 0.2:
+        g.emit(["remove", h, c], dump=True)
+    elif how < 0.35:
+        g.emit(["clear", h, "component"], dump=True)
+    elif how < 0.5:
+        g.emit(["clearAll", h], dump=True)
+    elif how < 0.65:
+        g.emit(["decompose", h, c], dump=True)
+    elif how < 0.85:
+        g.emit(["delGlyph", la, "C"], dump=True)
+    else:
+        g.emit(["newGlyph", la, "C"], dump=True)
+    g.emit(["clean"], dump=False)
+    g.mutate(k, dump=True)          # not followed any more
+    g.mutate(c, dump=True)
+    d = _new_glyph(g, la, "D")
+    if sh.owner[c] is None:
+        g.emit(["insert", d, c, 0], dump=True)
+        g.emit(["clean"], dump=False)
+        g.mutate(k, dump=True)      # followed again, through D
+
+
+def sc_x_rename_base(g):
+    """the base glyph is renamed away and back, another glyph takes its name, the component changes its base name"""
+    sh, rng = g.sh, g.rng
+    la = rng.choice(sh.live_layers())
+    a = sh.find_glyph(la, "A")
+    if a is None:
+        a = _new_glyph(g, la, "A")
+    k = _contour_in(g, a)
+    h, c = _based_host(g, la, "C", "A")
+    _maybe_dump(g)
+    if rng.random() < 0.3:
+        # the base glyph is renamed onto the name of the glyph that holds the component: that glyph is replaced while
+        # `Glyph.NameChanged` is being delivered to its component
+        g.emit(["renameGlyph", a, "C"], dump=True)
+        g.emit(["clean"], dump=False)
+        for x in [k, c, h, a]:
+            g.mutate(x, dump=False)
+        g.emit(["dump"])
+        return
+    g.emit(["renameGlyph", a, "X1"], dump=True)
+    g.emit(["clean"], dump=False)
+    g.mutate(k, dump=True)
+    r = rng.random()
+    if r < 0.4:
+        g.emit(["renameGlyph", a, "A"], dump=True)
+    elif r < 0.7:
+        n = _new_glyph(g, la, "N")
+        g.emit(["renameGlyph", n, "A"], dump=True)
+    else:
+        g.emit(["setBase", c, "X1"], dump=True)
+    g.emit(["clean"], dump=False)
+    g.mutate(k, dump=True)
+    g.emit(["setBase", c, rng.choice(["B", "missing", None, "A"])], dump=True)
+    g.emit(["clean"], dump=False)
+    g.mutate(k, dump=True)
+
+
+XSCENARIOS = [sc_x_replace_base, sc_x_layer_deletion, sc_x_remove_component, sc_x_rename_base]
+
 SCENARIOS = [sc_ghost_after_remove, sc_replaced_glyph, sc_layer_deletion, sc_owned_twice, sc_dead_glyph_ops,
              sc_lazy_loading, sc_list_assignment, sc_rename_back, sc_two_fonts]
 
@@ -830,23 +1088,28 @@ def gen_random_case(rng, maxlen, xlink=False, scenario=None):
     for la in g.sh.live_layers()[:2]:
         if rng.random() < 0.7:
             g.emit(["newGlyph", la, rng.choice(GLYPH_NAMES)])
+    scen = None
     if scenario is not None:
         for _ in range(rng.randint(0, 4)):
             g.random_op()
-        SCENARIOS[scenario % len(SCENARIOS)](g)
+        if xlink and rng.random() < 0.7:
+            scen = XSCENARIOS[scenario % len(XSCENARIOS)]
+        else:
+            scen = SCENARIOS[scenario % len(SCENARIOS)]
+        scen(g)
         if rng.random() < 0.3:
-            SCENARIOS[rng.randrange(len(SCENARIOS))](g)
+            (XSCENARIOS if xlink else SCENARIOS)[rng.randrange(len(XSCENARIOS if xlink else SCENARIOS))](g)
     n = max(len(g.ops) + rng.randint(0, 8), rng.randint(4, maxlen)) if scenario is not None else rng.randint(4, maxlen)
     while len(g.ops) < n:
         g.random_op()
     g.ops.append(["dump"])
-    return dict(ops=g.ops, disk=disk, xlink=xlink, scenario=None if scenario is None else SCENARIOS[scenario % len(SCENARIOS)].__name__)
+    return dict(ops=g.ops, disk=disk, xlink=xlink, scenario=None if scen is None else scen.__name__)
 
 
 def generate(rng, tier):
     n, maxlen = (1600, 40) if tier == "quick" else (15000, 70)
     for i in range(n):
-        yield gen_random_case(rng, maxlen, xlink=(i % 5 == 4), scenario=(i // 2 if i % 2 else None))
+        yield gen_random_case(rng, maxlen, xlink=(i % 5 >= 3), scenario=(i // 2 if i % 2 else None))
 
 
 def neighbourhood(case, step, rng):
@@ -867,12 +1130,18 @@ def neighbourhood(case, step, rng):
     yield dict(case, ops=prefix + tail + [["dump"]])
     glyphs = [i for i in ids if sh.kind[i] == "glyph"]
     loose = [i for i in ids if sh.kind[i] in CHILD_KINDS and sh.owner.get(i) is None]
+    def acyclic(gl, name):
+        """the component graph stays acyclic (outside the domain otherwise: the real code recurses without end)"""
+        return all(brank(sh.base.get(k)) < rank(name) for k in sh.kids[gl] if sh.kind[k] == "component")
     for x in loose[:6]:
         for gl in glyphs[:4]:
+            if sh.kind[x] == "component" and not brank(sh.base.get(x)) < rank(sh.name.get(gl, "")):
+                continue
             yield dict(case, ops=prefix + [["insert", gl, x, 0], ["dump"], ["clean"], ["mutate", x, 2000], ["dump"]])
     for la in sh.live_layers()[:2]:
         for gl in glyphs[:4]:
-            yield dict(case, ops=prefix + [["insertGlyph", la, gl, "NB"], ["dump"]])
+            if acyclic(gl, "NB"):
+                yield dict(case, ops=prefix + [["insertGlyph", la, gl, "NB"], ["dump"]])
     yield case
 
 
@@ -887,11 +1156,18 @@ def enc_op(op, case):
     if k in ("newLayer", "delLayer", "renameLayer", "newGlyph", "delGlyph", "renameGlyph"):
         return [Atom(k), op[1], op[2]]
     if k == "getGlyph":
-        return [Atom(k), op[1], op[2], list(op[3])]
+        # the components of the glyphs on disk all name the glyph "missing" (_write_disk)
+        return [Atom(k), op[1], op[2], list(op[3]), [opt("missing")] * op[3][1]]
     if k == "insertGlyph":
         return [Atom(k), op[1], op[2], opt(op[3])]
     if k == "new":
+        if op[1] == "component":
+            return [Atom(k), Atom(op[1]), opt(op[2] if len(op) > 2 else None)]
         return [Atom(k), Atom(op[1])]
+    if k == "setBase":
+        return [Atom(k), op[1], opt(op[2])]
+    if k == "decompose":
+        return [Atom(k), op[1], op[2]]
     if k in ("insert", "remove"):
         return [Atom(k), op[1], op[2]]
     if k == "clear":
@@ -903,7 +1179,7 @@ def enc_op(op, case):
     if k == "touch":
         return [Atom(k), op[1], Atom(op[2])]
     if k == "mutate":
-        return [Atom(k), op[1]] + ([Atom("nolog")] if case.get("xlink") else [])
+        return [Atom(k), op[1]]
     if k in ("newFont", "newGlyphObj", "clean", "dump"):
         return [Atom(k)]
     raise ValueError(op)
@@ -1013,6 +1289,8 @@ class World(object):
         # the font lib is built on first access, which the glyph order bookkeeping does on the first glyph
         # added / deleted / renamed: build it at once so that its number does not depend on that
         self.reg(font.lib, "lib")
+        # the font info is built on first access too (the font's guidelines live in it): build it at once
+        font.info
         return f
 
     def reg_glyph_children(self, glyph, with_singletons=True):
@@ -1165,8 +1443,23 @@ class World(object):
             if self.kind[op[1]] == "font" and kind != "guideline":
                 raise LookupError("kind")
             n = len(self._role_list(p, kind))
-            idx = op[3] % (n + 1)
+            # components are appended: Layer.insertGlyph copies them in list order, which the model knows as
+            # insertion order (the order inside a child list is not modelled)
+            idx = n if kind == "component" else op[3] % (n + 1)
             getattr(p, "insert" + kind.capitalize())(idx, x)
+            return ok
+        if k == "setBase":
+            self.get(op[1], ["component"]).baseGlyph = op[2]
+            return ok
+        if k == "decompose":
+            g = self.get(op[1], ["glyph"])
+            c = self.get(op[2], ["component"])
+            if c not in g._components:
+                raise ValueError("component not in glyph")
+            if g.layer is None:
+                return DETACHED     # DecomposeComponentPointPen needs the glyph's layer
+            g.decomposeComponent(c)
+            self.reg_glyph_children(g, with_singletons=False)
             return ok
         if k == "remove":
             p = self.get(op[1], ["glyph", "font"])
@@ -1294,10 +1587,8 @@ class World(object):
                     senders.add(m)
         self.last_log = {f: list(rec.log) for f, rec in self.recorders.items()}
         flags = self._flags()
-        res = [Atom("mut"), [Atom("dirty"), [Atom("set")] + [n for n in sorted(flags) if flags[n]]]]
-        if not self.case.get("xlink"):
-            res.append([Atom("posted"), [Atom("set")] + sorted(senders)])
-        return res
+        return [Atom("mut"), [Atom("dirty"), [Atom("set")] + [n for n in sorted(flags) if flags[n]]],
+                [Atom("posted"), [Atom("set")] + sorted(senders)]]
 
     def _clean(self):
         """clear every container's dirty flag through the public setter, bottom up (what a save does)"""
@@ -1327,28 +1618,44 @@ class World(object):
         res.append(None if d is None else self.centres.get(id(d), 999))
         return res
 
-    def registrations(self):
-        """parent<-child and self registrations in every font's centre, read off `_registry` (read-only)"""
-        regs = []
+    def canon_obj(self, f, obj):
+        """an object of a registration: its number, or the fixed sub-object of font f it is, or its class"""
+        if obj is None:
+            return Atom("dead")
+        n = self.ids.get(id(obj))
+        if n is not None:
+            return n
+        for ff in self.fonts:
+            font = self.objs[ff]
+            if obj is font._images:
+                return [Atom("imageSet"), ff]
+            if obj is font._data:
+                return [Atom("dataSet"), ff]
+            if obj is font._info:
+                return [Atom("info"), ff]
+        return [Atom("unknown"), type(obj).__name__]
+
+    def raw_registrations(self):
+        """every registration of every font's centre: (font number, observer object, observable object, name),
+        read off `_registry` (read-only); the adaptor's own recorder (observable None) is left out"""
+        rows = []
         for f in self.fonts:
             centre = self.objs[f].dispatcher
             for (name, obsref), observers in centre._registry.items():
-                if obsref is None:
-                    continue
-                observable = obsref()
-                m = self.num(observable)
-                if m is None or m == 999:
-                    continue
                 for oref in observers:
                     observer = oref()
-                    o = self.num(observer)
-                    if o is None or o == 999:
-                        continue
-                    if o == m and name is None:
-                        regs.append([f, o, m, nname(None)])
-                    elif name in REG_TABLE.get((self.kind[o], self.kind[m]), ()):
-                        regs.append([f, o, m, nname(name)])
-        return regs
+                    if obsref is None:
+                        if observer is self.recorders[f]:
+                            continue
+                        rows.append((f, observer, Ellipsis, name))
+                    else:
+                        rows.append((f, observer, obsref(), name))
+        return rows
+
+    def registrations(self):
+        """the complete registry of every font's centre, canonicalised"""
+        return [[f, self.canon_obj(f, o), Atom("any") if m is Ellipsis else self.canon_obj(f, m), nname(name)]
+                for (f, o, m, name) in self.raw_registrations()]
 
     def _dump(self):
         rows = []
@@ -1384,6 +1691,14 @@ class Oracle(object):
     S4 (re-insert): inserting an object that no container owns is accepted.
     S5 (exclusive): after no operation is an object listed in two containers that are both alive
         (reachable from a font, or a stand-alone glyph that was never removed from anywhere).
+    S6 (no wiring left): every registration in a font's notification centre is between objects of that font:
+        observer and observable are the font, reachable from it by the child lists, or one of its fixed
+        sub-objects - never an object that was removed / replaced or that a removed container took along.
+    S7 (cross links exact): a component reachable from a font observes exactly its layer and the glyph object
+        that layer files under its base glyph name (the layer alone when it files none, nothing without a base
+        glyph name); an image exactly the font's image set and its layer.
+    S3b: while an object is changed, nothing that is not reachable from a font sends a notification.
+    S0: no operation dies of a TypeError / AttributeError / RuntimeError (a removed object that is still called back).
     """
 
     def __init__(self, world):
@@ -1444,6 +1759,10 @@ class Oracle(object):
         self.edges = now
         k = op[0]
         failed = isinstance(result, list) and result and result[0] == "err"
+        # S0: an operation of the domain never dies of a TypeError / AttributeError: the way a callback of an object
+        # that has just been let go (and is still called back by the delivery in progress) shows
+        if failed and str(result[1]) in ("TypeError", "AttributeError", "RuntimeError"):
+            self.report("operation-crashed", "%s/%s" % (k, result[1]), op=list(op))
         # S2 bookkeeping ------------------------------------------------------------------
         for (p, x) in before - now:
             self.removed.add(x)
@@ -1511,6 +1830,60 @@ class Oracle(object):
             for name, a in zip(["layer", "layerSet", "font", "dispatcher"], [acc[1], acc[2], acc[3], acc[5]]):
                 if a is not None:
                     self.report("unreachable-answers", "%s.%s/after-%s" % (w.kind[x], name, k), obj=x, observed=a)
+        # S6 / S7: the registry ----------------------------------------------------------------
+        by_observer = {}
+        ghosts = set()
+        for (f, observer, observable, name) in w.raw_registrations():
+            by_observer.setdefault(id(observer), []).append((f, observable, name))
+            for role, obj in (("observer", observer), ("observable", observable)):
+                if obj is Ellipsis or obj is None:
+                    continue
+                n = w.ids.get(id(obj))
+                if n is None:
+                    continue        # a fixed sub-object of a font (image set, data set, info): S1b
+                if n != f and not any(c.get("font") == f for c in reach.get(n, ())):
+                    key = (f, id(observer), id(observable), name, role)
+                    ghosts.add(key)
+                    if key not in self.ghosts:      # reported once, at the operation that leaves it behind
+                        self.report("ghost-registration", "%s-as-%s/%s/after-%s" % (w.kind[n], role, name, k), obj=n, font=f)
+        self.ghosts = ghosts
+        inexact = set()
+        for n, ctxs in reach.items():
+            kind = w.kind[n]
+            if len(ctxs) != 1 or kind not in ("component", "image"):
+                continue
+            ctx, o = ctxs[0], w.objs[n]
+            f, layer = ctx.get("font"), w.objs.get(ctx.get("layer"))
+            expected = set()
+            if kind == "component" and o.baseGlyph is not None and layer is not None:
+                target = layer._glyphs.get(o.baseGlyph)
+                if target is not None:
+                    expected = {(id(target), "Glyph.NameChanged"), (id(target), "Glyph.ContoursChanged"),
+                                (id(target), "Glyph.ComponentsChanged"), (id(layer), "Layer.GlyphWillBeDeleted"),
+                                (id(layer), "Layer.GlyphAdded"), (id(layer), "Layer.GlyphNameChanged")}
+                else:
+                    expected = {(id(layer), "Layer.GlyphNameChanged"), (id(layer), "Layer.GlyphAdded"),
+                                (id(layer), "Layer.GlyphDeleted")}
+            elif kind == "image" and layer is not None:
+                images = w.objs[f]._images
+                expected = {(id(images), "ImageSet.ImageAdded"), (id(images), "ImageSet.ImageDeleted"),
+                            (id(images), "ImageSet.ImageChanged"), (id(layer), "Layer.ColorChanged")}
+            actual = set()
+            for (ff, observable, name) in by_observer.get(id(o), ()):
+                if observable is o and name is None:
+                    continue        # its observation of itself
+                actual.add((None if observable is Ellipsis else id(observable), name))
+                if ff != f:
+                    self.report("cross-link-inexact", "%s/other-centre/after-%s" % (kind, k), obj=n, centre=ff)
+            if actual != expected:
+                def show(rows):
+                    return sorted((str(w.ids.get(i, "sub")), nm) for (i, nm) in rows)
+                key = (n, tuple(show(expected - actual)), tuple(show(actual - expected)))
+                inexact.add(key)
+                if key not in self.inexact:
+                    self.report("cross-link-inexact", "%s/after-%s" % (kind, k), obj=n, missing=show(expected - actual),
+                                extra=show(actual - expected))
+        self.inexact = inexact
         # S5 --------------------------------------------------------------------------------
         alive = set(reach)
         for n in w.objs:
@@ -1548,11 +1921,21 @@ class Oracle(object):
             for p in former:
                 if w.kind[p] in CONTAINER_KINDS and self.flags_before.get(p) is False and bool(w.objs[p].dirty):
                     self.report("ghost-dirty", "%s/former-%s" % (w.kind[x], w.kind[p]), obj=x, container=p)
+            # S3b: whatever sends a notification is in a font
+            for f, log in w.last_log.items():
+                for name, obj in log:
+                    sn = w.ids.get(id(obj))
+                    if sn is not None and sn not in reach:
+                        self.report("unreachable-sender", "%s/while-%s-changes" % (w.kind[sn], w.kind[x]), obj=x, sender=sn,
+                                    notification=name)
+                        break
         self.flags_before = w._flags()
 
     alive_before = frozenset()
     acc_before = {}
     flags_before = {}
+    ghosts = frozenset()
+    inexact = frozenset()
 
     def referencers(self, current):
         """glyphs that reference a glyph of `current` through components (transitively), with their ancestors"""
